@@ -71,7 +71,7 @@ func universeReport(req *proto.RunReq) ([]proto.PkgReport, string) {
 		if len(P.Files()) == 0 {
 			continue // "unsafe": a pseudo-package without source, nothing was loaded for it
 		}
-		checkPackage(u, P, &r)
+		checkPackage(u, P, &r, req.UniMethodsFirst)
 		out = append(out, r)
 	}
 	return out, ""
@@ -85,7 +85,7 @@ func posString(fset *token.FileSet, pos token.Pos) string {
 	return filepath.Base(pp.Filename) + ":" + strconv.Itoa(pp.Line) + ":" + strconv.Itoa(pp.Column)
 }
 
-func checkPackage(u *gengotypes.Universe, P gengotypes.Package, r *proto.PkgReport) {
+func checkPackage(u *gengotypes.Universe, P gengotypes.Package, r *proto.PkgReport, methodsFirst bool) {
 	tp := P.Pkg()
 	fset := P.FileSet()
 	scope := tp.Scope()
@@ -112,6 +112,72 @@ func checkPackage(u *gengotypes.Universe, P gengotypes.Package, r *proto.PkgRepo
 		case *types.Func:
 			wantFuncs[n] = o
 		}
+	}
+	doU2 := func() {
+		// ---- U2: methods -------------------------------------------------------
+		tnames := make([]string, 0, len(wantTypes))
+		for n := range wantTypes {
+			tnames = append(tnames, n)
+		}
+		sort.Strings(tnames)
+		for _, n := range tnames {
+			tn := wantTypes[n].(*types.TypeName)
+			if tn.IsAlias() {
+				continue
+			}
+			named, ok := tn.Type().(*types.Named)
+			if !ok {
+				continue
+			}
+			if _, isIface := named.Underlying().(*types.Interface); isIface {
+				continue // interface methods are not declared methods with receivers
+			}
+			wantAll := map[*types.Func]bool{}
+			wantVal := map[*types.Func]bool{}
+			for i := 0; i < named.NumMethods(); i++ {
+				m := named.Method(i)
+				wantAll[m] = true
+				if sig, ok := m.Type().(*types.Signature); ok && sig.Recv() != nil {
+					if _, isPtr := sig.Recv().Type().(*types.Pointer); !isPtr {
+						wantVal[m] = true
+					}
+				}
+			}
+			r.NMeth += len(wantAll)
+			facts := map[string]string{"generic": fmt.Sprint(named.TypeParams().Len() > 0)}
+			check := func(label string, want map[*types.Func]bool, got []*types.Func) {
+				gotSet := map[*types.Func]int{}
+				var names []string
+				for _, m := range got {
+					gotSet[m]++
+					names = append(names, m.Name())
+				}
+				sort.Strings(names)
+				fmt.Fprintf(&dig, "methods %s %s %s\n", n, label, strings.Join(names, ","))
+				for m := range want {
+					if gotSet[m] == 0 {
+						bad("U2", "missing-method", facts, "%s (%s): %s", n, label, m.Name())
+					}
+				}
+				for m, c := range gotSet {
+					if !want[m] {
+						bad("U2", "extra-method", facts, "%s (%s): %s", n, label, m.Name())
+					}
+					if c > 1 {
+						bad("U2", "duplicate-method", facts, "%s (%s): %s", n, label, m.Name())
+					}
+				}
+			}
+			// the answers must not depend on which questions were asked before
+			check("value", wantVal, P.MethodsOf(named, false))
+			check("all", wantAll, P.MethodsOf(named, true))
+			check("value", wantVal, P.MethodsOf(named, false))
+			check("all", wantAll, P.MethodsOf(named, true))
+		}
+
+	}
+	if methodsFirst {
+		doU2()
 	}
 	cmpTable := func(kind string, want map[string]types.Object, got map[string]types.Object, lookup func(string) types.Object) {
 		names := make([]string, 0, len(want)+len(got))
@@ -182,67 +248,9 @@ func checkPackage(u *gengotypes.Universe, P gengotypes.Package, r *proto.PkgRepo
 	})
 	r.NTypes, r.NConst, r.NFuncs = len(wantTypes), len(wantConsts), len(wantFuncs)
 
-	// ---- U2: methods -------------------------------------------------------
-	tnames := make([]string, 0, len(wantTypes))
-	for n := range wantTypes {
-		tnames = append(tnames, n)
+	if !methodsFirst {
+		doU2()
 	}
-	sort.Strings(tnames)
-	for _, n := range tnames {
-		tn := wantTypes[n].(*types.TypeName)
-		if tn.IsAlias() {
-			continue
-		}
-		named, ok := tn.Type().(*types.Named)
-		if !ok {
-			continue
-		}
-		if _, isIface := named.Underlying().(*types.Interface); isIface {
-			continue // interface methods are not declared methods with receivers
-		}
-		wantAll := map[*types.Func]bool{}
-		wantVal := map[*types.Func]bool{}
-		for i := 0; i < named.NumMethods(); i++ {
-			m := named.Method(i)
-			wantAll[m] = true
-			if sig, ok := m.Type().(*types.Signature); ok && sig.Recv() != nil {
-				if _, isPtr := sig.Recv().Type().(*types.Pointer); !isPtr {
-					wantVal[m] = true
-				}
-			}
-		}
-		r.NMeth += len(wantAll)
-		facts := map[string]string{"generic": fmt.Sprint(named.TypeParams().Len() > 0)}
-		check := func(label string, want map[*types.Func]bool, got []*types.Func) {
-			gotSet := map[*types.Func]int{}
-			var names []string
-			for _, m := range got {
-				gotSet[m]++
-				names = append(names, m.Name())
-			}
-			sort.Strings(names)
-			fmt.Fprintf(&dig, "methods %s %s %s\n", n, label, strings.Join(names, ","))
-			for m := range want {
-				if gotSet[m] == 0 {
-					bad("U2", "missing-method", facts, "%s (%s): %s", n, label, m.Name())
-				}
-			}
-			for m, c := range gotSet {
-				if !want[m] {
-					bad("U2", "extra-method", facts, "%s (%s): %s", n, label, m.Name())
-				}
-				if c > 1 {
-					bad("U2", "duplicate-method", facts, "%s (%s): %s", n, label, m.Name())
-				}
-			}
-		}
-		// the answers must not depend on which questions were asked before
-		check("value", wantVal, P.MethodsOf(named, false))
-		check("all", wantAll, P.MethodsOf(named, true))
-		check("value", wantVal, P.MethodsOf(named, false))
-		check("all", wantAll, P.MethodsOf(named, true))
-	}
-
 	// ---- U3: imports -------------------------------------------------------
 	wantImports := map[string]bool{}
 	for _, f := range P.Files() {
@@ -312,7 +320,10 @@ func checkPackage(u *gengotypes.Universe, P gengotypes.Package, r *proto.PkgRepo
 		fmt.Fprintf(&dig, "sourcedir-ok %v\n", true)
 	}
 
-	sum := sha256.Sum256([]byte(dig.String()))
+	// the digest must not depend on the order the questions were asked in
+	digLines := strings.Split(dig.String(), "\n")
+	sort.Strings(digLines)
+	sum := sha256.Sum256([]byte(strings.Join(digLines, "\n")))
 	r.Digest = fmt.Sprintf("%x", sum[:8])
 }
 
